@@ -1024,35 +1024,32 @@ impl ListenerBuilder {
             Some(ref v) => v.iter().map(|v| *v as i32).collect(),
         };
 
-        let key = self.key.as_ref().and_then(|path| {
-            Config::load_file(path)
-                .map_err(|e| {
-                    error!("cannot load key at path '{}': {:?}", path, e);
-                    e
-                })
-                .ok()
-        });
-        let certificate = self.certificate.as_ref().and_then(|path| {
-            Config::load_file(path)
-                .map_err(|e| {
-                    error!("cannot load certificate at path '{}': {:?}", path, e);
-                    e
-                })
-                .ok()
-        });
-        let certificate_chain = self
-            .certificate_chain
-            .as_ref()
-            .and_then(|path| {
-                Config::load_file(path)
-                    .map_err(|e| {
-                        error!("cannot load certificate chain at path '{}': {:?}", path, e);
-                        e
-                    })
-                    .ok()
-            })
-            .map(split_certificate_chain)
-            .unwrap_or_default();
+        // A listener's default certificate is handed to the frontends of its
+        // address that declare none. A file that cannot be read, a certificate
+        // without its key (or the reverse) or a PEM that holds no certificate
+        // would give them half a TLS identity: `generate_requests` then emits a
+        // plain AddHttpFrontend on this HTTPS address (a frontend without
+        // listener), or an AddCertificate that `ConfigState` refuses.
+        let key = match self.key.as_ref() {
+            None => None,
+            Some(path) => Some(Config::load_file(path)?),
+        };
+        let certificate = match self.certificate.as_ref() {
+            None => None,
+            Some(path) => {
+                let certificate = Config::load_file(path)?;
+                check_certificate_pem(path, &certificate)?;
+                Some(certificate)
+            }
+        };
+        if key.is_some() != certificate.is_some() {
+            let missing = if key.is_none() { "key" } else { "certificate" };
+            return Err(ConfigError::Missing(MissingKind::Field(missing.to_string())));
+        }
+        let certificate_chain = match self.certificate_chain.as_ref() {
+            None => Vec::new(),
+            Some(path) => split_certificate_chain(Config::load_file(path)?),
+        };
 
         let http_answers = self.get_http_answers()?;
         let answers = self.get_listener_answers()?;
